@@ -1,0 +1,8 @@
+//go:build !verif
+
+package model
+
+// verifGate marks the lock-region boundaries of the endpoint index for the verification harness
+// (see zz_verif_c13.go, build tag verif). Without the tag it is this empty function, which the
+// compiler inlines away.
+func verifGate(string) {}
